@@ -109,7 +109,7 @@ structure Found where
   graph : Graph
   k : Nat            -- the k of the last search
   tried : List Nat   -- every k that was searched, in order
-  deriving Repr
+  deriving Repr, DecidableEq
 
 /-- `search k` is the neighbour computation for `k` neighbours (C02 is its specification).
     `N - 1` is `end - begin - 1` (N ≥ 1). -/
